@@ -99,6 +99,12 @@ theorem digraphSelf_sortby_pred (nv : Nat) (B : BipG) (succ : Bool) :
   · simp [digraphSelf]
   · simp only [digraphSelf, if_true, Bool.true_eq_false, iff_false]; decide
 
+theorem digraphSelf_pred (nv : Nat) (B : BipG) : (digraphSelf nv B false).sortby = "pred" := rfl
+
+theorem digraphSelf_succ (nv : Nat) (B : BipG) : ¬ ((digraphSelf nv B true).sortby = "pred") := by
+  show ¬ ("succ" = "pred")
+  decide
+
 /-- `sorted((a, b))` -/
 theorem sorted_pair (a b : Int) : Py.sorted [a, b] = if b < a then [b, a] else [a, b] := by
   simp only [Py.sorted, List.foldl_cons, List.foldl_nil, Py.insertSorted]
